@@ -462,8 +462,12 @@ def rule_trunc(ctx):
                     and rhs.args and const_value(rhs.args[0]) == 'Q']
             fb = [x for x in q.own_calls(hb) if isinstance(x.func, ast.Attribute) and x.func.attr == 'frombytes'
                   and norm(x.func.value) == arr.id]
+            # ... or in one step: a = array.array('Q', b''.join(...))   (the array is then fresh by construction)
+            direct = len(adef) == 1 and len(adef[0].args) == 2 and not fb
+            if direct:
+                fb = [adef[0]]
             if len(adef) == 1 and len(fb) == 1 and fb[0].args:
-                j = fb[0].args[0]
+                j = fb[0].args[-1] if direct else fb[0].args[0]
                 if isinstance(j, ast.Call) and norm(j.func) == "b''.join" and isinstance(j.args[0], ast.GeneratorExp):
                     g = j.args[0]
                     it = g.generators[0].iter
@@ -478,6 +482,7 @@ def rule_trunc(ctx):
                         # fills it (frombytes appends - an array made once per script hash accumulates earlier rows)
                         adef_st = [st for st, rhs in d.get(arr.id, []) if rhs is adef[0]]
                         inner_fb = [p for p, _f in q.enclosing_chain(q.stmt(fb[0]), hb.node) if isinstance(p, (ast.For, ast.While))]
+                        # (it must be the row loop: the array is decoded from this row's bytes)
                         inner_def = [p for p, _f in q.enclosing_chain(adef_st[0], hb.node) if isinstance(p, (ast.For, ast.While))] if adef_st else []
                         if not (inner_fb and inner_def and inner_fb[0] is inner_def[0]):
                             arr_ok = False
@@ -500,23 +505,40 @@ def rule_trunc(ctx):
             kws = {k.arg: norm(k.value) for k in lp.iter.keywords}
             rev = kws.get('reverse') == 'True'
             keyv, histv = [norm(e) for e in lp.target.elts] if isinstance(lp.target, ast.Tuple) else (None, None)
-            ifs = [s for s in lp.body if isinstance(s, ast.If)]
-            keep_ok = False
-            if len(ifs) == 1 and keyv:
-                t = q.comparison_normal(ctx, hb, ifs[0].test)
-                cond = t is not None and t[1] == '>' and q.lin_eq(t[0], {idxv: 1, '': 0})
-                keeps = [s for s in ifs[0].body if isinstance(s, ast.Assign) and isinstance(s.targets[0], ast.Subscript)
-                         and norm(s.targets[0].slice) == keyv]
-                brk = any(isinstance(s, ast.Break) for s in ifs[0].body)
-                sl_ok = False
-                if len(keeps) == 1 and isinstance(keeps[0].value, ast.Subscript) and norm(keeps[0].value.value) == histv \
-                        and isinstance(keeps[0].value.slice, ast.Slice) and keeps[0].value.slice.lower is None:
-                    up = keeps[0].value.slice.upper
-                    sl_ok = norm(up) in (f'5 * {idxv}', f'{idxv} * 5')
-                dels = [c for c in walk_own(lp) if isinstance(c, ast.Call) and isinstance(c.func, ast.Attribute)
-                        and c.func.attr == 'append' and norm(c.args[0]) == keyv and not q.in_body(c, ifs[0].body)]
-                keep_ok = cond and sl_ok and brk and len(dels) == 1
-                whyl = f'reverse={rev}, idx>0 test={cond}, kept prefix ok={sl_ok}, stops at first kept row={brk}, emptied rows deleted={len(dels) == 1}'
+            # per path through one row: idx > 0 (some entries survive) => the row keeps its prefix hist[:5 * idx] and the walk
+            # stops; otherwise the emptied row is queued for deletion and the walk goes on with the next older row
+            from .. import paths as P
+            keep_ok, whyl = bool(keyv), 'row loop target not (key, hist)'
+            n_keep = n_del = 0
+            for pth in P.paths(lp.body) if keyv else []:
+                itxt = norm(pth.env[idxv]) if idxv in pth.env else norm(c)        # the bisection, locals expressed in the row
+                surv = P.decided(ctx, hb, pth, f'{itxt} > 0')
+                if surv is None:
+                    surv_ne = P.decided(ctx, hb, pth, f'{itxt} == 0')
+                    surv = None if surv_ne is None else (not surv_ne)
+                simple = [(st_, e_) for st_, e_ in pth.events if isinstance(st_, (ast.Assign, ast.Expr))]
+                keeps = [st_ for st_, e_ in simple if isinstance(st_, ast.Assign) and isinstance(st_.targets[0], ast.Subscript)
+                         and norm(st_.targets[0].slice) == keyv]
+                dels = [st_ for st_, e_ in simple if isinstance(st_, ast.Expr) and isinstance(st_.value, ast.Call) and isinstance(st_.value.func, ast.Attribute)
+                        and st_.value.func.attr == 'append' and st_.value.args and norm(st_.value.args[0]) == keyv]
+                if surv is None:
+                    keep_ok, whyl = False, f'a path through the row is not decided by idx > 0: {pth.cond_texts()}'
+                    break
+                if surv:
+                    n_keep += 1
+                    sl_ok = False
+                    if len(keeps) == 1 and isinstance(keeps[0].value, ast.Subscript) and norm(keeps[0].value.value) == histv \
+                            and isinstance(keeps[0].value.slice, ast.Slice) and keeps[0].value.slice.lower is None:
+                        sl_ok = norm(keeps[0].value.slice.upper) in (f'5 * {idxv}', f'{idxv} * 5')
+                    if not (sl_ok and pth.exit == 'break' and not dels):
+                        keep_ok, whyl = False, f'with survivors: kept prefix ok={sl_ok}, stops={pth.exit == "break"}, not deleted={not dels}'
+                else:
+                    n_del += 1
+                    if not (len(dels) == 1 and not keeps and pth.exit in ('continue', 'fall')):
+                        keep_ok, whyl = False, f'emptied row: deleted={len(dels) == 1}, nothing kept={not keeps}, walk goes on={pth.exit in ("continue", "fall")}'
+            keep_ok = keep_ok and n_keep >= 1 and n_del >= 1
+            if keep_ok:
+                whyl = 'ok'
             outer_l = [p for p, _f in q.enclosing_chain(lp, hb.node) if isinstance(p, ast.For)]
             okl = rev and keep_ok and bool(outer_l) and norm(kws.get('prefix')) == norm(outer_l[0].target)
         ctx.check(okl, 'C03.TRUNC', ctx.key(hb, None, 'row walk'),
